@@ -30,6 +30,7 @@ type World struct {
 	SpecDir   string
 	LoadSecs  float64
 	GlobalFacts map[*ssa.Global]*GlobalFact
+	GoOracles   map[string]bool
 }
 
 type smtSig struct {
@@ -127,6 +128,17 @@ func loadWorld(repo string, patterns []string, specDir string, overlay map[strin
 		for _, l := range cf.SMT {
 			w.SpecLines = append(w.SpecLines, l)
 			w.scanSMTSigs(l)
+		}
+		for _, l := range cf.GoLines {
+			if i := strings.Index(l, "func oracle_"); i >= 0 {
+				name := l[i+len("func oracle_"):]
+				if j := strings.Index(name, "("); j > 0 {
+					if w.GoOracles == nil {
+						w.GoOracles = map[string]bool{}
+					}
+					w.GoOracles[name[:j]] = true
+				}
+			}
 		}
 	}
 	w.scanSMTSigs(prelude)
